@@ -3,6 +3,7 @@ package main
 import (
 	"fmt"
 	"go/token"
+	"sort"
 	"go/types"
 
 	"golang.org/x/tools/go/ssa"
@@ -12,13 +13,43 @@ import (
 // top frame) over [lo,hi]; each child re-executes the current instruction with the operand
 // concrete. Values outside the range take the oob continuation.
 func (e *Engine) concretizeOperand(st *State, v ssa.Value, t *Term, lo, hi int, oob func(s *State)) {
-	if hi-lo+1 > 130 {
-		e.unsupported(st, fmt.Sprintf("symbolic index/length with range %d..%d too wide", lo, hi))
-	}
 	c := e.ctx
+	var cand []int
+	if hi-lo+1 > 40 {
+		// wide range: let the solver enumerate the feasible values (complete or unsupported)
+		rng := c.And(c.Cmp(OpSle, c.BV(t.w, uint64(lo)), t), c.Cmp(OpSle, t, c.BV(t.w, uint64(hi))))
+		if didx := len(st.decisions); didx < len(e.forced) {
+			// replaying a recorded prefix: values were enumerated when the prefix was recorded
+		}
+		e.solver.SyncTo(st.pcList())
+		excl := rng
+		complete := false
+		for k := 0; k < 24; k++ {
+			r, m := e.solver.CheckModel(excl, e.ctx.termVars(t))
+			if r == Unsat {
+				complete = true
+				break
+			}
+			if r != Sat {
+				e.stats.SolverUnknown++
+				e.unsupported(st, "solver unknown while enumerating a symbolic index")
+			}
+			v := int(sext(e.ctx.Eval(t, m, map[*Term]uint64{}), t.w))
+			cand = append(cand, v)
+			excl = c.And(excl, c.Not(c.Eq(t, c.BV(t.w, uint64(v)))))
+		}
+		if !complete {
+			e.unsupported(st, fmt.Sprintf("symbolic index/length in %d..%d has more than 24 feasible values", lo, hi))
+		}
+		sort.Ints(cand)
+	} else {
+		for i := lo; i <= hi; i++ {
+			cand = append(cand, i)
+		}
+	}
 	var alts []Alt
 	inRange := c.False
-	for i := lo; i <= hi; i++ {
+	for _, i := range cand {
 		k := c.BV(t.w, uint64(i))
 		cond := c.Eq(t, k)
 		inRange = c.Or(inRange, cond)
